@@ -23,7 +23,7 @@ RULE = (
     "Hypothesis RuleBasedStateMachine. Each history draws a pool of 3-6 inputs: generated programs (with and without "
     "macros; different programs reuse the same macro / label / coroutine / op names), programs with one injected "
     "static error (the call raises midway), and SSB routine sets of strata 1-3 (incl. ones that take the SsbScript "
-    "fallback). Rules: compile with a fresh compiler; compile with ONE shared compiler instance; decompile fresh "
+    "fallback). Rules: compile with a fresh compiler; compile the SsbScript text of a routine set with the SsbScript compiler; compile with ONE shared compiler instance; decompile fresh "
     "objects; decompile the SAME op objects again; call convert() twice on the same decompiler; SsbScript-decompile the "
     "same op objects after the ExplorerScript decompiler used them; gc.collect(). Model: the result of every input "
     "(ops, offsets, routine table, text, serialized source maps, or the exception type and message) computed in a FRESH "
@@ -39,7 +39,7 @@ CASES = {"quick": 160, "thorough": 3000}
 SHARDS = 16
 NO_SHRINK = True  # the state machine run shrinks itself
 
-RULES = ["compile_fresh", "compile_shared", "decompile_fresh", "decompile_same_objects", "convert_twice", "ssbs_same_objects", "gc"]
+RULES = ["compile_fresh", "compile_shared", "decompile_fresh", "decompile_same_objects", "convert_twice", "ssbs_same_objects", "compile_ssbscript", "gc"]
 
 _MODEL_CACHE: dict[str, dict] = {}
 
@@ -131,6 +131,12 @@ class HistoryRunner:
         if ref.get("skip"):
             return None
         c = results.input_ssb(item)
+        if rule_name == "compile_ssbscript":
+            if "ssbs_compile" not in ref:
+                return None
+            got = results.ssbs_compile_result(ref["ssbs"]["text"])
+            self._note(k, "raised" in got)
+            return self._cmp(rule_name, k, ref["ssbs_compile"], got)
         if rule_name == "decompile_fresh":
             got = results.decompile_result(gen_ssb.build(c))
             self._note(k, "raised" in got)
@@ -250,6 +256,10 @@ def run_shard(tier, seed, shard, n_cases, known_b):
         @rule(i=st.integers(0, 20))
         def ssbs_same_objects(self, i):
             self._do("ssbs_same_objects", i)
+
+        @rule(i=st.integers(0, 20))
+        def compile_ssbscript(self, i):
+            self._do("compile_ssbscript", i)
 
         @rule()
         def collect_garbage(self):
